@@ -210,6 +210,9 @@ structure Params (α : Type) where
   topK : Int
   topP : α
   minP : α
+  /-- variant flag, not a sampler field: `true` = proposed repair of finding F18c (the greedy branch
+      reports "all logits are -Inf" like the weighted path instead of returning the first token) -/
+  greedyErr : Bool := false
 
 /-- the clamping done by `NewSampler` -/
 def newParams (o : Ops α) (temp : α) (k : Int) (p mp : α) : Params α :=
@@ -238,7 +241,10 @@ def afterTopK (o : Ops α) (fix : Bool) (P : Params α) (r : α) (L : List (Tok 
 /-- `(*Sampler).sample` -/
 def sampleCore (o : Ops α) (fix : Bool) (P : Params α) (r : α) (ts : List (Tok α)) :
     Except Err (Tok α) :=
-  if o.beq P.temp o.zero then greedy o ts
+  if o.beq P.temp o.zero then
+    match greedy o ts with
+    | .ok t => if P.greedyErr && o.beq t.val o.negInf then .error .allNegInf else .ok t
+    | .error e => .error e
   else afterTopK o fix P r (topK o P.topK ts)
 
 def mkTokensFrom : Nat → List α → List (Tok α)
